@@ -363,16 +363,18 @@ impl DnsCache {
 
         // update TTL for existing record or create a new record.
         let (idx, updated) = match record_vec
-            .iter_mut()
-            .enumerate()
-            .find(|(_idx, r)| r.record.matches(incoming.as_ref()))
+            .iter()
+            .position(|r| r.record.matches(incoming.as_ref()))
         {
-            Some((i, r)) => {
+            Some(i) => {
                 // It is possible that this record was just updated in cache_flush
                 // processing. That's okay. We can still reset here.
+                // The record received last goes first, like a new one.
+                let mut r = record_vec.remove(i);
                 r.record.reset_ttl(incoming.as_ref());
                 r.seen_on(intf.into());
-                (i, false)
+                record_vec.insert(0, r);
+                (0, false)
             }
             None => {
                 let new_record = DnsRecordIntf {
